@@ -212,6 +212,8 @@ func inVSetOpt(ex *Exec, fr *frame, args []Value) Value {
 		ex.X.MaxLoop = v
 	case "watchReads":
 		ex.watchReads = v != 0
+	case "lazyTimers":
+		ex.lazyTimers = v != 0
 	default:
 		ex.abort("unsupported", "vSetOpt "+name)
 	}
